@@ -903,7 +903,7 @@ func (u *Unit) registerReturnedLit(env *Env, fi *FuncInfo, blk *Block, res Term,
 	if lit == nil {
 		unsup("returns-lit: %s has no literal %d", owner.Key, ord)
 	}
-	lblk := u.Prog.Contracts.Get(owner.Key, fmt.Sprintf("lit %d", ord))
+	lblk := u.Prog.litBlock(owner, lit, ord)
 	if lblk == nil {
 		unsup("returns-lit: literal %d of %s has no contract block", ord, owner.Key)
 	}
